@@ -228,7 +228,10 @@ class E2ECheck:
         if p == "C01":
             return [("shadow capacity check after live place/load", tot.get("c01_checks", 0), 500),
                     ("direct-drive recount after place_task under the chaos policy", tot.get("direct_live_place", 0), 1000),
-                    ("utilization rows vs shadow", tot.get("utilization_rows", 0), 500)]
+                    ("utilization rows vs shadow", tot.get("utilization_rows", 0), 500),
+                    ("direct-drive profile loads applied under the chaos policy", tot.get("direct_live_load", 0), 100),
+                    ("direct-drive batch placements recounted (a batch counts once)", tot.get("direct_live_batch_place", 0), 100),
+                    ("worker profile tables compared with the harness' record of successful loads", tot.get("direct_profile_table_checks", 0), 10000)]
         if p == "C02":
             return [("Task.start ordering automaton", tot.get("starts", 0), 1000),
                     ("direct-drive starts of tasks with parents under the chaos policy", tot.get("direct_starts_with_parents", 0), 1000),
